@@ -27,6 +27,10 @@ type ClosePlan struct {
 	// BreakDir > 0 (Directory storage): the directory is deleted that many writes before the Close
 	// point; the first Write that fails for it ends the writing, then Close is called as planned
 	BreakDir int `json:"break_dir,omitempty"`
+	// SlowHint (Low-Latency): a preload-hint request read by a slow client is issued before the
+	// Close point; writing continues until the muxer starts sending it the part (its Write blocks),
+	// and Close is called while that transfer is stuck
+	SlowHint bool `json:"slow_hint,omitempty"`
 }
 
 // E2CloseResult is the outcome of one C07 scenario.
@@ -39,6 +43,8 @@ type E2CloseResult struct {
 	ClosedTwice    bool
 	DirBroken      bool // the storage directory was deleted under the muxer
 	WriteFailed    bool // ... and a Write failed because of it
+	SlowTransfer   bool // Close was called while a slow client was stuck receiving a part
+	WriteRejected  bool // a Write was rejected for SegmentMaxSize; Close was called right after
 	// SecondClosePanicked: a repeated Close panicked (outside the statement; recorded as a label)
 	SecondClosePanicked bool
 }
@@ -84,6 +90,10 @@ func RunC07(sc Script, plan ClosePlan, tmpBase string) *E2CloseResult {
 			res.DirBroken = true
 		}
 		if err := drv.Write(i, op); err != nil {
+			if strings.Contains(err.Error(), "maximum segment size") {
+				res.WriteRejected = true // SegmentMaxSize: the script ends here, Close follows
+				break
+			}
 			if res.DirBroken && !strings.HasPrefix(err.Error(), "PANIC") {
 				res.WriteFailed = true // storage failure: expected; Close must still do its job
 				break
@@ -96,18 +106,73 @@ func RunC07(sc Script, plan ClosePlan, tmpBase string) *E2CloseResult {
 	// observe the state of every stream (tracked: may block before content)
 	states := map[string]*llState{}
 	var probes []*Pending
-	for _, s := range streams {
-		p := drv.Go(s + "_stream.m3u8")
-		if done, _ := p.Settle(20 * time.Second); done {
-			if r := p.Resp(); r.Status == 200 {
-				if st, err := readLLState(string(r.Body)); err == nil {
-					states[s] = st
+	observeStates := func() {
+		for _, s := range streams {
+			if states[s] == nil {
+				already := false
+				for _, p := range probes {
+					if p.Path == s+"_stream.m3u8" {
+						already = true
+					}
+				}
+				if already {
+					continue // one outstanding probe per stream
 				}
 			}
-		} else {
-			probes = append(probes, p) // stays pending: it is a "plain" request blocked before content
+			p := drv.Go(s + "_stream.m3u8")
+			if done, _ := p.Settle(20 * time.Second); done {
+				if r := p.Resp(); r.Status == 200 {
+					if st, err := readLLState(string(r.Body)); err == nil {
+						states[s] = st
+					}
+				}
+			} else {
+				probes = append(probes, p) // stays pending: it is a "plain" request blocked before content
+			}
 		}
 	}
+	observeStates()
+	// ---- a slow client in the middle of a part transfer ----
+	if plan.SlowHint && cfg.Variant == VariantLL && !res.WriteFailed && !res.WriteRejected {
+		lead := cfg.LeadingStream()
+		if st := states[lead]; st != nil && st.hint != "" {
+			sp, gate := drv.GoSlow(st.hint)
+			defer gate.Release()
+			for i := plan.CloseAfterOp + 1; i < len(sc.Ops) && i <= plan.CloseAfterOp+80; i++ {
+				started := false
+				select {
+				case <-gate.Started:
+					started = true
+				default:
+				}
+				if started {
+					break
+				}
+				werr := make(chan error, 1)
+				go func(i int) { werr <- drv.Write(i, sc.Ops[i]) }(i)
+				select {
+				case err := <-werr:
+					if err != nil {
+						i = len(sc.Ops) // stop writing
+					}
+					sp.Settle(5 * time.Second) // the hint request is blocked again: still waiting, or in its Write
+				case <-time.After(10 * time.Second):
+					res.add("Write did not return within 10 s while a slow client was reading a part (op %d)", i)
+					return res
+				}
+			}
+			select {
+			case <-gate.Started:
+				res.SlowTransfer = true
+			case <-time.After(300 * time.Millisecond):
+			}
+			_ = sp
+			if res.SlowTransfer {
+				observeStates() // the extra writes moved the streams on
+			}
+		}
+	}
+
 	type tracked struct {
 		spec           PendSpec
 		path           string
